@@ -292,6 +292,30 @@ def tstParse (ts : List String) : Option UObs :=
     | _ => none
   | _ => none
 
+/-! ### bg -/
+
+def bgInput (ts : List String) : Option (Bool × Nat) :=
+  match after "order" ts, natAfter "n" ts with
+  | o :: _, some n => if n ≥ 1 then some (o == "close", n) else none
+  | _, _ => none
+
+/-- Cleaner enters a tick and queues for the lock, the closers take the latch / queue for the lock,
+the reader unblocks; then `StopCleanup` first (`closeFirst`) or the tick body first. -/
+def bgSched (closeFirst : Bool) (n : Nat) : Schedule :=
+  let closers := (List.range n).map (· + 2)
+  [1, 1, 1] ++ closers ++ closers ++ [0] ++
+    (if closeFirst then closers ++ [1, 1, 1] else [1, 1, 1] ++ closers ++ [1])
+
+def bgShow (o : GObs) : String := s!"live {o.live} closed {if o.closed then 1 else 0}"
+
+def bgParse (ts : List String) : Option GObs :=
+  match ts with
+  | ["live", a, "closed", b] =>
+    match a.toNat?, b.toNat? with
+    | some a, some b => some ⟨a, b == 1⟩
+    | _, _ => none
+  | _ => none
+
 /-! ### entry points -/
 
 def runModel (ts : List String) : String :=
@@ -330,6 +354,10 @@ def runModel (ts : List String) : String :=
     match tstInput ts with
     | some gates => tstShow (uObs (uFinal .setCtxFirst gates.length (tstSched gates)))
     | none => "bad-case"
+  | "bg" :: _ =>
+    match bgInput ts with
+    | some (cf, n) => bgShow (gObs (gFinal .keep 1 n (bgSched cf n)))
+    | none => "bad-case"
   | "mgr" :: _ =>
     -- two clean handlers: ResourceBase.onClose and the component's own onClose
     match mgrInput ts with
@@ -367,6 +395,10 @@ def runHolds (caseToks obsToks : List String) : String :=
   | "tst" :: _ =>
     match tstInput caseToks, tstParse obsToks with
     | some _, some o => holdsU o
+    | _, _ => false
+  | "bg" :: _ =>
+    match bgInput caseToks, bgParse obsToks with
+    | some _, some o => holdsG o
     | _, _ => false
   | "mgr" :: _ =>
     match mgrInput caseToks, mgrParse obsToks with
